@@ -69,6 +69,9 @@ type Plan12 struct {
 	OnLeaf   bool     `json:"on_leaf"` // pass a leaf callback to NewStateSync
 	Acts     []Act    `json:"acts"`
 	DrainN   int      `json:"drain_n"` // Missing(n) used while draining after the last act
+	// MaxFetches > 0 sets trie.Sync's per-depth throttle (maxFetchesPerDepth, 16384 in the
+	// shipped tree, a variable under the verif overlay) for this run; 0 leaves the default.
+	MaxFetches int `json:"max_fetches,omitempty"`
 	Tape     []uint16 `json:"tape"`    // order of the concurrent local-presence checks inside ProcessNode
 }
 
@@ -103,6 +106,17 @@ func Gen12(r *simcore.Rand, tier string) any {
 	case 3:
 		na = r.Range(51, 150)
 	}
+	// storage-heavy states: every account has storage and the storage tries are wide, so that
+	// many storage nodes of one depth (sync path length 64+k) are outstanding at once
+	heavy := r.Bool(0.2)
+	if heavy {
+		p.Storages = nil
+		ns = r.Range(1, 3)
+		for i := 0; i < ns; i++ {
+			p.Storages = append(p.Storages, genSlots(r, r.Range(17, 48)))
+		}
+		na = r.Range(4, 24)
+	}
 	seen := map[string]bool{}
 	var hashes []HB
 	for len(p.Accounts) < na {
@@ -122,7 +136,7 @@ func Gen12(r *simcore.Rand, tier string) any {
 		seen[k63(h)] = true
 		hashes = append(hashes, h)
 		a := Acct12{Hash: h, Nonce: uint64(r.Intn(4)), Balance: uint64(r.Intn(1000)), Stor: -1, Code: -1}
-		if ns > 0 && r.Bool(0.5) {
+		if ns > 0 && (heavy || r.Bool(0.5)) {
 			a.Stor = r.Intn(ns)
 		}
 		if nc > 0 && r.Bool(0.5) {
@@ -184,6 +198,9 @@ func Gen12(r *simcore.Rand, tier string) any {
 		}
 	}
 	p.DrainN = []int{0, 1, 4, 32}[r.Intn(4)]
+	if r.Bool(0.6) {
+		p.MaxFetches = []int{1, 2, 3, r.Range(4, 16), r.Range(17, 64)}[r.Intn(5)]
+	}
 	p.Tape = r.Tape(1200)
 	return p
 }
@@ -223,6 +240,11 @@ func Shrink12(pl any) []any {
 	if p.Pre.Mode != "none" {
 		q := clonePlan(p)
 		q.Pre = Pre{Mode: "none"}
+		out = append(out, q)
+	}
+	if p.MaxFetches > 0 {
+		q := clonePlan(p)
+		q.MaxFetches = 0
 		out = append(out, q)
 	}
 	if p.OnLeaf {
@@ -407,6 +429,11 @@ func (f inflight) key() string {
 func Run12(t *testing.T, pl any) *simcore.Result {
 	prologue()
 	p := pl.(*Plan12)
+	if p.MaxFetches > 0 {
+		// process-global knob: one world per process at a time
+		old := trie.VerifSetMaxFetchesPerDepth(p.MaxFetches)
+		defer trie.VerifSetMaxFetchesPerDepth(old)
+	}
 	res := simcore.NewResult()
 	var viol *simcore.Violation
 	var lg simcore.Hash64
@@ -575,6 +602,12 @@ func run12(p *Plan12, res *simcore.Result, sched *simsched.Sched) (*simcore.Viol
 			fl = append(fl, inflight{code: true, hash: h})
 		}
 		sort.Slice(fl, func(i, j int) bool { return fl[i].key() < fl[j].key() })
+		if got := len(paths) + len(codes); sync.VerifQueueLen() > 0 && (n == 0 || got < n) {
+			res.Probe("missing-throttled")
+			if len(paths) > 0 && len(paths[len(paths)-1]) >= 64 || got == 0 {
+				res.Probe("missing-throttled-storage-depth")
+			}
+		}
 		res.Events += len(paths) + len(codes)
 		return nil
 	}
